@@ -43,6 +43,12 @@ var intKinds = []kindRange{
 	{"uint64", bi("0"), bi("18446744073709551615")},
 	{"float32", bi("-16777216"), bi("16777216")},
 	{"float64", bi("-9007199254740992"), bi("9007199254740992")},
+	// defined types (type Status int, type Celsius float64, ...) and uintptr
+	{"named:int", bi("-9007199254740992"), bi("9007199254740992")},
+	{"named:int64", bi("-9007199254740992"), bi("9007199254740992")},
+	{"named:uint8", bi("0"), bi("255")},
+	{"named:float64", bi("-9007199254740992"), bi("9007199254740992")},
+	{"uintptr", bi("0"), bi("9007199254740992")},
 }
 
 // intV builds the description of integer n carried by kind k (n must fit).
@@ -328,6 +334,29 @@ func init() {
 			}
 			b := intV(k2.name, nn)
 			return &c15Case{Rel: "uniform", A: intV(k1.name, nn), B: &b, Src: nn.String()}
+		})
+		// integers a float32 holds exactly although they lie beyond 2^24
+		sub.Rapid(c, n/12, func(t *rapid.T) *c15Case {
+			mant := int64(rapid.IntRange(1<<23, 1<<24-1).Draw(t, "mant"))
+			nn := new(big.Int).Lsh(big.NewInt(mant), uint(rapid.IntRange(1, 29).Draw(t, "exp")))
+			if rapid.Bool().Draw(t, "neg") {
+				nn.Neg(nn)
+			}
+			f, _ := new(big.Float).SetInt(nn).Float64()
+			others := []sb.V{intV("float64", nn), intV("int64", nn)}
+			b := others[rapid.IntRange(0, 1).Draw(t, "other")]
+			return &c15Case{Rel: "uniform", A: sb.V{K: "float32", N: f}, B: &b, Src: nn.String()}
+		})
+		// defined string and bool types coerce like string and bool
+		sub.Rapid(c, n/50, func(t *rapid.T) *c15Case {
+			if rapid.Bool().Draw(t, "which") {
+				s := rapid.SampledFrom([]string{"", "x", "12", "-3.5", "abc def"}).Draw(t, "s")
+				b := sb.V{K: "named:str", S: s}
+				return &c15Case{Rel: "uniform", A: sb.V{K: "str", S: s}, B: &b, Src: s}
+			}
+			bv := rapid.Bool().Draw(t, "b")
+			b := sb.V{K: "named:bool", B: bv}
+			return &c15Case{Rel: "uniform", A: sb.V{K: "bool", B: bv}, B: &b, Src: fmt.Sprint(bv)}
 		})
 		sub.Rapid(c, n/6, func(t *rapid.T) *c15Case {
 			v := anyValue(t)
